@@ -19,6 +19,7 @@ VERIF = os.path.dirname(HERE)
 COQ = os.path.join(VERIF, 'coq')
 PY = '/venv/bin/python'
 NPROC = min(16, os.cpu_count() or 4)
+MAX_SHARD_CHARS = 300000
 
 ALLOWED_AXIOMS = {
     'functional_extensionality_dep', 'proof_irrelevance', 'classic', 'JMeq_eq',
@@ -247,19 +248,28 @@ def coq_mismatches(requires, run, agree, pairs, tag='c', shard=250, want_model_o
     implementation's.  Returns (mismatch_indices, info)."""
     wd = workdir()
     jobs = []
-    for k in range(0, len(pairs), shard):
-        chunk = pairs[k:k + shard]
-        name = '%s_%d' % (tag, k // shard)
+    # shards of at most [shard] cases and at most MAX_SHARD_CHARS characters of literal text: very large list literals
+    # overflow coqc's stack (the parser is not tail-recursive); coqc also runs with an unlimited stack (launch below)
+    rendered = ['(%s,\n %s)' % (sx(a), sx(b)) for a, b in pairs]
+    k = 0
+    while k < len(pairs):
+        j, size = k, 0
+        while j < len(pairs) and j - k < shard and (j == k or size + len(rendered[j]) <= MAX_SHARD_CHARS):
+            size += len(rendered[j])
+            j += 1
+        name = '%s_%d' % (tag, len(jobs))
         path = os.path.join(wd, name + '.v')
         with open(path, 'w') as fh:
             fh.write('From Coq Require Import ZArith List.\nImport ListNotations.\n')
             fh.write('Require Import WnV.Base.Sx %s.\nLocal Open Scope Z_scope.\n' % requires)
             fh.write('Definition cases : list (sx * sx) := [\n')
-            fh.write(';\n'.join('(%s,\n %s)' % (sx(a), sx(b)) for a, b in chunk))
+            fh.write(';\n'.join(rendered[k:j]))
             fh.write('\n].\n')
             fh.write('Definition mm := Eval vm_compute in mismatches %s %s cases.\n' % (run, agree))
             fh.write('Print mm.\n')
         jobs.append((k, name, path))
+        k = j
+    del rendered
     procs = []
     results = {}
     t0 = time.time()
@@ -267,7 +277,8 @@ def coq_mismatches(requires, run, agree, pairs, tag='c', shard=250, want_model_o
     def launch(job):
         k, name, path = job
         return (job, subprocess.Popen(
-            ['timeout', '900', 'coqc', '-Q', COQ, 'WnV', '-w', '-all', path],
+            ['bash', '-c', 'ulimit -s unlimited 2>/dev/null || ulimit -s 1000000 2>/dev/null; exec timeout 900 coqc -Q "$0" WnV -w -all "$1"',
+             COQ, path],
             cwd=wd, stdout=subprocess.PIPE, stderr=subprocess.PIPE, text=True))
     pending = list(jobs)
     running = []
